@@ -12,7 +12,7 @@
 From Coq Require Import NArith List Bool Arith Lia Permutation Sorted.
 From CL Require Import Base.Sx Base.Res Base.Str Model.Merge Generated.C04Facts
   Model.Entry Model.Parse Model.ParseFormats Proofs.MergeProofs
-  Proofs.C02Roundtrip Proofs.C02BlocksRx Proofs.C02BlocksVal Proofs.C02Blocks.
+  Proofs.MergeRefuted Proofs.C02Roundtrip Proofs.C02BlocksRx Proofs.C02BlocksVal Proofs.C02Blocks.
 Import ListNotations.
 Local Open Scope nat_scope.
 
@@ -22,7 +22,7 @@ Local Arguments N.eqb : simpl never.
 Local Arguments vraw : simpl never.
 Local Arguments ctext : simpl never.
 
-Notation skip := (@Merge.skip str).
+Local Notation skip := (@Merge.skip str).
 
 (* ---- the entities of a parse, and the skips made of them ------------------- *)
 Definition parse_entities (s : str) (es : list entry) : list (str * span) :=
@@ -656,8 +656,8 @@ Proof.
            (file_text (merged_blocks sel bs abs)), (merged_blocks sel bs abs), es'.
     split; [exact Hmerge|]. split.
     { rewrite Htext. destruct skips as [|s0 skips']; cbn [nonempty staged_text].
-      - apply Permutation_nil in Hperm. rewrite <- Hperm in Hrm. rewrite remove_spans_nil in Hrm.
-        now rewrite <- Hrm.
+      - apply Permutation_nil in Hperm. rewrite Hperm in Hrm. cbn [map] in Hrm.
+        rewrite remove_spans_nil in Hrm. now rewrite <- Hrm.
       - now rewrite Hrm. }
     split; [reflexivity|]. split; [reflexivity|].
     split; [now apply merged_blocks_legal|]. split; [now apply merged_blocks_adjacent|].
@@ -677,4 +677,42 @@ Proof.
     split; [exact Hw|]. split; [|exact Hjunk].
     rewrite Hrec. cbn [records_of]. rewrite app_nil_r. symmetry.
     exact (filter_none_all rkey sel (records_of bs) Hnone).
+Qed.
+
+(* ---- why the premises are there ---------------------------------------------------- *)
+(* (1) legality of the localization's last value excludes the listed finding D3: an
+   entity whose last line ends in an odd run of backslashes is not a legal block *)
+Lemma d3_not_legal :
+  let b := BEntity [] [97%N] [] 61%N [] [] [120; 92]%N false in      (*  a=x\  *)
+  file_text [b] = d3_l10n /\ legal_blockb b = false.
+Proof. split; reflexivity. Qed.
+
+(* (2) [legal_ref] asks that Entity.all of an appended reference entity does not end in
+   a newline.  A legal entity block can: the value  a\  continued by an empty last line.
+   ensureNewline then adds nothing and the next appended entity is swallowed by the
+   continuation.  reference:  k=a\ / <empty> / b=2 ;  localization:  x=1  *)
+Definition rk_block : block := BEntity [] [107%N] [] 61%N [] [[97; 92]%N] [] true.
+Definition rb_block : block := BEntity [] [98%N] [] 61%N [] [] [50%N] true.
+Definition lx_block : block := BEntity [] [120%N] [] 61%N [] [] [49%N] true.
+
+Lemma ref_continuation_witness :
+  let bs := [lx_block] in
+  let abs := [rk_block; rb_block] in
+  let refs := map (fun b => (rkey (hd ([], [], None) (records_of [b])), entity_all b)) abs in
+  Forall legal_block bs /\ adjacent_ok bs /\
+  (* the reference is itself a legal, separated block list without junk *)
+  Forall legal_block abs /\ adjacent_ok abs /\
+  walk_properties (file_text abs) = Ok (entries_of abs) /\
+  forallb is_entity abs = true /\
+  map (fun b => ends_with_nl (entity_all b)) abs = [true; false] /\
+  map_result (ref_all str_eqb refs) [[107%N]; [98%N]] = Ok (map entity_all abs) /\
+  (do a <- merge str_eqb true caps_properties (file_text bs) [] [[107%N]; [98%N]] refs;
+   match staged_text (file_text bs) a with
+   | Some t => do ks <- parsed_keys t; Ok (t, ks)
+   | None => Raise AssertionError
+   end)
+  = Ok ([120; 61; 49; 10;  10;  107; 61; 97; 92; 10;  98; 61; 50; 10]%N, [[120%N]; [107%N]]).
+Proof.
+  cbv zeta. split; [repeat constructor|]. split; [vm_compute; reflexivity|].
+  split; [repeat constructor|]. repeat split; vm_compute; reflexivity.
 Qed.
